@@ -1,8 +1,15 @@
-"""Thorough tier: checker self-test (mutants that must be reported, applied to a scratch copy of /repo).
-Filled in by engine/selftest/mutants/*.diff; see run()."""
+"""Thorough tier: checker self-test.
+
+Every mutant in engine/selftest/mutants/<PID>-*.diff (one broken rule instance each, still compiling) is applied to a
+scratch copy of /repo outside /repo and /verif, the check is run against that copy (facts are re-extracted, so `cargo
+check` proves the mutant compiles) and the named rule instance must be reported. The scratch copy and its build output
+are removed immediately. A mutant that no longer applies to the current tree is reported as skipped (the tree moved),
+a mutant that applies, compiles and is NOT reported makes the thorough check fail."""
+import concurrent.futures
 import glob
 import json
 import os
+import re
 import shutil
 import subprocess
 import tempfile
@@ -11,65 +18,53 @@ import facts as F
 import report
 
 
+def _one(pid, d):
+    name = os.path.basename(d)
+    meta_path = d[:-5] + ".json"
+    expect = json.load(open(meta_path)).get("expect_keys", []) if os.path.exists(meta_path) else []
+    scratch = tempfile.mkdtemp(prefix="rssl-mutant-")
+    try:
+        repo = os.path.join(scratch, "repo")
+        subprocess.check_call(["rsync", "-a", "--exclude", "target", "--exclude", ".git", F.REPO + "/", repo + "/"])
+        p = subprocess.run(["patch", "-p1", "-s", "-i", d], cwd=repo, stdout=subprocess.PIPE, stderr=subprocess.STDOUT, text=True)
+        if p.returncode != 0:
+            return {"mutant": name, "status": "not-applicable", "detail": p.stdout.strip()[:160]}
+        env = dict(os.environ, VERIF_EVIDENCE_DIR=os.path.join(scratch, "evidence"))
+        env.pop("FACTS_DIR", None)
+        r = subprocess.run([os.path.join(F.VERIF, "bin", "check"), pid, "--repo", repo, "--tier", "quick"],
+                           stdout=subprocess.PIPE, stderr=subprocess.STDOUT, text=True, env=env)
+        if r.returncode == 2:
+            return {"mutant": name, "status": "does-not-compile"}
+        keys = re.findall(r"^  FAIL \S+(?: \S+)*?  (C\d+\.\S+)  ", r.stdout, flags=re.M)
+        keys = [k for k in keys]
+        hit = [k for k in expect if k in keys] if expect else keys
+        return {"mutant": name, "status": "caught" if hit and r.returncode == 1 else "missed", "keys": hit[:4], "reported": len(keys)}
+    finally:
+        shutil.rmtree(scratch, ignore_errors=True)
+
+
 def run(pid, chk):
-    """Apply every mutant diff registered for `pid` to a scratch copy of /repo, re-extract facts
-    (cargo check proves the mutant compiles) and require that the named rule instance is reported.
-    Returns 0 when every mutant is caught, 1 otherwise."""
     mdir = os.path.join(F.VERIF, "engine", "selftest", "mutants")
     diffs = sorted(glob.glob(os.path.join(mdir, pid + "-*.diff")))
     if not diffs:
         print("  selftest: no mutants registered for %s" % pid)
         return 0
-    import importlib
-    mod = importlib.import_module(pid.lower())
     rc = 0
-    results = []
-    for d in diffs:
-        meta_path = d[:-5] + ".json"
-        expect = json.load(open(meta_path))["expect_keys"] if os.path.exists(meta_path) else []
-        scratch = tempfile.mkdtemp(prefix="rssl-mutant-")
-        try:
-            repo = os.path.join(scratch, "repo")
-            subprocess.check_call(["rsync", "-a", "--exclude", "target", "--exclude", ".git", F.REPO + "/", repo + "/"])
-            p = subprocess.run(["patch", "-p1", "-s", "-i", d], cwd=repo, stdout=subprocess.PIPE, stderr=subprocess.STDOUT, text=True)
-            if p.returncode != 0:
-                print("  selftest: %s does not apply to the current tree (skipped: %s)" % (os.path.basename(d), p.stdout.strip()[:120]))
-                results.append({"mutant": os.path.basename(d), "status": "not-applicable"})
-                continue
-            try:
-                fdir, s2, _ = F.extract(repo=repo)
-            except F.ExtractionError as e:
-                print("  selftest: %s does not compile (skipped)" % os.path.basename(d))
-                results.append({"mutant": os.path.basename(d), "status": "does-not-compile"})
-                continue
-            try:
-                facts2 = F.Facts(fdir)
-                c2 = report.Check(pid, facts2, tier="selftest")
-                try:
-                    mod.run(c2)
-                except Exception as ex:  # fail closed counts as reported
-                    c2.ob(pid + ".engine/exception", False, str(ex), "engine")
-                known = report.load_known()
-                failing = {o["key"] for o in c2.obligations if not o["ok"] and (pid, o["key"]) not in known}
-                hit = [k for k in expect if k in failing] if expect else sorted(failing)
-                ok = bool(hit)
-                print("  selftest: mutant %-40s %s %s" % (os.path.basename(d), "CAUGHT" if ok else "MISSED", hit[:3]))
-                results.append({"mutant": os.path.basename(d), "status": "caught" if ok else "missed", "keys": hit[:5]})
-                if not ok:
-                    rc = 1
-                    rp = os.path.join(report.REPLAY_DIR, "%s-selftest-%s.json" % (pid, os.path.basename(d)))
-                    os.makedirs(report.REPLAY_DIR, exist_ok=True)
-                    json.dump({"property": pid, "key": pid + ".selftest/" + os.path.basename(d),
-                               "instances": [{"where": d, "why": "checker self-test: this mutant is no longer reported"}]}, open(rp, "w"))
-                    print("VIOLATION property=%s replay=%s" % (pid, rp))
-            finally:
-                shutil.rmtree(s2, ignore_errors=True)
-        finally:
-            shutil.rmtree(scratch, ignore_errors=True)
-    # append self-test results to the evidence file
+    with concurrent.futures.ThreadPoolExecutor(max_workers=min(8, len(diffs))) as ex:
+        results = list(ex.map(lambda d: _one(pid, d), diffs))
+    for res in results:
+        print("  selftest: mutant %-44s %s %s" % (res["mutant"], res["status"].upper(), res.get("keys", res.get("detail", ""))))
+        if res["status"] == "missed":
+            rc = 1
+            os.makedirs(report.REPLAY_DIR, exist_ok=True)
+            rp = os.path.join(report.REPLAY_DIR, "%s-selftest-%s.json" % (pid, res["mutant"]))
+            json.dump({"property": pid, "key": pid + ".selftest/" + res["mutant"],
+                       "instances": [{"where": res["mutant"], "why": "checker self-test: this mutant compiles but is no longer reported"}]}, open(rp, "w"))
+            print("VIOLATION property=%s replay=%s" % (pid, rp))
     ev_path = os.path.join(report.EVID_DIR, pid + ".json")
     if os.path.exists(ev_path):
         ev = json.load(open(ev_path))
         ev["coverage"]["selftest_mutants"] = results
+        ev["coverage"]["selftest_caught"] = sum(1 for r in results if r["status"] == "caught")
         json.dump(ev, open(ev_path, "w"), indent=1)
     return rc
